@@ -57,13 +57,14 @@ PROPS = {
         "v_units": ["capacity.py", "compress.py"],
         "r": [("compress", lambda n: "unpack_array_len" in n),
               ("prover", lambda n: n.startswith("prover.") or n.startswith("lemma.") or n.startswith("quotient.")), ("verifier", lambda n: n.startswith("verifier.") or n.startswith("proof.verify")),
-              ("linearization", None)],
+              ("linearization", None), ("serial", lambda n: "Prover." in n or "Verifier." in n or "framing[" in n),
+              ("kzg", lambda n: "CommitKey.commit" in n)],
         "claim": "function-level necessary conditions of completeness only: (a) prover/verifier agreement - the Fiat-Shamir schedule "
                  "the real prove_inner performs (trace-only symbolic run) is the protocol schedule, and is event-for-event the one "
                  "Proof::verify rebuilds from the returned proof (contract-level lemma); the two opening lists are the verifier's "
                  "batching order; (b) capacity chain: CommitKey::{max_degree,truncate}, PublicParameters::max_degree, "
                  "Compiler::max_constraints against their arithmetic specs for all sizes."
-                 "Also: the unsatisfied-circuit decision of quotient_poly::compute, the inputs the prover hands to it (every public input of the instance interpolated at its row, the masked polynomials, the seven challenges), and PackedCircuitReader::unpack_array_len per tag (compressed route).",
+                 "Also: the unsatisfied-circuit decision of quotient_poly::compute, the inputs the prover hands to it (every public input of the instance interpolated at its row, the masked polynomials, the seven challenges), and PackedCircuitReader::unpack_array_len per tag (compressed route). Serialized route: Prover/Verifier::to_bytes and try_from_bytes agree on framing and exits (the decoder's only exits are the listed length / consistency checks; every encoder output - including an empty label - passes them; framing lemma). The prover's linearisation polynomial r(X) is the protocol's r(X) over the circuit's domain.",
         "technique": "contract-based deductive verification: ring/trace checker in trace-only mode on prove_inner + Verus on the capacity arithmetic",
         "level_note": "NOT decided: algebraic completeness (quotient divisibility, FFT, KZG, pairing). prove_inner statements that touch "
                       "neither transcript nor rng are havocked (listed in the evidence).",
@@ -335,7 +336,7 @@ PROPS = {
     "C20": {
         "v_units": ["capacity.py", "kernels.py"],
         "r": [("kzg", None)],
-        "claim": "(a) aggregated opening: compute_aggregate_witness(p_0..p_k, z, v) == ruffini(sum_j v^j p_j, z) with POSITIONAL powers "
+        "claim": "(0) CommitKey::commit: the degree rule is the only exit and is checked on every polynomial before anything is computed; the result is the msm of the key's powers with the coefficient vector. (a) aggregated opening: compute_aggregate_witness(p_0..p_k, z, v) == ruffini(sum_j v^j p_j, z) with POSITIONAL powers "
                  "(instances of 0,1,3,4 polynomials; pointwise loop abstracted to a polynomial operation); (b) batched check: "
                  "batch_challenge absorbs domain separator, length and every (point, commitment, evaluation, witness) in order before the "
                  "squeeze; batch_check rejects empty / mismatched batches before any arithmetic and otherwise tests "
